@@ -294,6 +294,17 @@ func genC08(tier string, seed int64) (*Family, error) {
 		pre(2)+"\terr := rb.RemoveRules(nil)\n\tvnd.Assert(err != nil, \"an empty removal list is rejected\")\n\tcheckSet(rb, spec, nil)\n")
 	add("S_incr_blank", "rejected", "a blank incremental text fails and changes nothing",
 		pre(2)+"\terr := rb.BuildRuleWithIncremental(\"  \\n\")\n\tvnd.Assert(err != nil, \"blank text is rejected\")\n\tcheckSet(rb, spec, nil)\n")
+	// texts the grammar accepts and the listener rejects (a name twice, an empty name, a salience beyond int64)
+	for k, bad := range []string{
+		`verRule("x", 2, 5, "") + verRule("y", 2, 4, "") + verRule("x", 3, 3, "")`,
+		`verRule("x", 2, 5, "") + "rule \"\" begin\n ver(\"e\", 2)\nend\n"`,
+		`verRule("x", 2, 5, "") + "rule \"y\" salience 99999999999999999999 begin\n ver(\"y\", 2)\nend\n"`,
+	} {
+		add(fmt.Sprintf("S_full_listener_reject_%d", k), "rejected", "a full build the listener rejects fails and changes nothing",
+			pre(2)+"\terr := rb.BuildRuleFromString("+bad+")\n\tvnd.Assert(err != nil, \"the text is rejected\")\n\tcheckSet(rb, spec, []string{\"x\", \"y\"})\n")
+		add(fmt.Sprintf("S_incr_listener_reject_%d", k), "rejected", "an incremental build the listener rejects fails and changes nothing",
+			pre(2)+"\terr := rb.BuildRuleWithIncremental("+bad+")\n\tvnd.Assert(err != nil, \"the text is rejected\")\n\tcheckSet(rb, spec, []string{\"x\", \"y\"})\n")
+	}
 	// two-step sequences (histories): incremental then removal, removal then incremental, incremental twice
 	add("H_incr_then_remove", "sequence", "incremental {b,x} then removal {a,x}",
 		pre(2)+"\tq0, q1 := vnd.Int64(\"q0\"), vnd.Int64(\"q1\")\n\tvnd.ExploreMapOrder(true)\n\tmustOK(rb.BuildRuleWithIncremental(verRule(\"b\", 2, q0, \"nb\")+verRule(\"x\", 2, q1, \"nx\")), \"incremental\")\n\tmustOK(rb.RemoveRules([]string{\"a\", \"x\"}), \"removal\")\n\tvnd.ExploreMapOrder(false)\n\tdelete(spec, \"a\")\n\tspec[\"b\"] = specRule{2, q0, \"nb\"}\n\tcheckSet(rb, spec, []string{\"a\", \"x\"})\n")
